@@ -58,7 +58,7 @@ class Chooser:
         return 0
 
 
-def explore(run, max_dev=None, budgets=None, horizon=None, max_exec=None):
+def explore(run, max_dev=None, budgets=None, horizon=None, max_exec=None, stats=None):
     """yield (script, result, chooser) for every execution; result is None for pruned executions.
 
     run(ch) -> result.  Deterministic given the script."""
@@ -75,8 +75,12 @@ def explore(run, max_dev=None, budgets=None, horizon=None, max_exec=None):
             pruned = True
         n += 1
         yield (tuple(ch.taken), res, ch, pruned)
-        if max_exec is not None and n >= max_exec:
-            raise RuntimeError("execution cap %d hit" % max_exec)
+        if max_exec is not None and n >= max_exec and stack:
+            # execution budget exhausted: stop here and SAY so (the caller reports the run as capped, not exhaustive)
+            if stats is not None:
+                stats["capped"] = stats.get("capped", 0) + 1
+                stats["unexplored_branches"] = stats.get("unexplored_branches", 0) + len(stack)
+            return
         # children: deviate at one later point
         base = len(script)
         for i in range(len(ch.trace) - 1, base - 1, -1):
@@ -195,6 +199,23 @@ class FakeStdRandom(Fake):
         perms = list(itertools.permutations(range(n)))
         p = perms[self.ch.choose(len(perms), "std.shuffle")]
         x[:] = [x[i] for i in p]
+
+    def uniform(self, a, b):
+        if (a, b) == (0, 1) or (a, b) == (0.0, 1.0):
+            return CoinFloat(self.ch, "std.uniform")
+        raise UnownedRandomness("random.uniform(%r, %r) is not modelled" % (a, b))
+
+    def choices(self, population, weights=None, *, cum_weights=None, k=1):
+        pop = list(population)
+        idx = list(range(len(pop)))
+        if weights is not None:
+            idx = [i for i in idx if list(weights)[i] > 0]
+        return [pop[idx[self.ch.choose(len(idx), "std.choices")]] for _ in range(k)]
+
+    def getrandbits(self, k):
+        if k > 4:
+            raise UnownedRandomness("random.getrandbits(%d) is not modelled" % k)
+        return self.ch.choose(2 ** k, "std.getrandbits")
 
 
 def _fact(k):
@@ -323,6 +344,22 @@ class FakeNumpyRandom(Fake):
     def exponential(self, scale=1.0, size=None):
         return self._menu("exponential", size)
 
+    def random_sample(self, size=None):
+        return self.random(size)
+
+    def sample(self, size=None):
+        return self.random(size)
+
+    def ranf(self, size=None):
+        return self.random(size)
+
+    def binomial(self, n, p, size=None):
+        if size is not None or int(n) > 6:
+            raise UnownedRandomness("np.random.binomial(n=%r, size=%r) is not modelled" % (n, size))
+        lo = int(n) if p >= 1 else 0
+        hi = 0 if p <= 0 else int(n)
+        return lo + self.ch.choose(hi - lo + 1, "np.binomial")
+
     def uniform(self, low=0.0, high=1.0, size=None):
         if size is None:
             if (low, high) == (0.0, 1.0):
@@ -337,13 +374,24 @@ class FakeGenerator(Fake):
     menus: {"random": fn(shape)->list of arrays, "exponential": fn(scale, size)->list, "normal": fn(loc, scale)->list,
             "poisson": fn(lam)->list}; integer draws are enumerated completely."""
 
-    def __init__(self, ch, real_np, menus=None, tag="rng", seed=None):
+    def __init__(self, ch, real_np, menus=None, tag="rng", seed=None, registry=None):
         self.ch = ch
         self.np = real_np
         self.menus = menus or {}
         self.tag = tag
         self.seed = seed
         self.draws = 0
+        self.registry = registry
+
+    def spawn(self, n_children):
+        """child generators derived from this one: seeded exactly when the parent is"""
+        kids = []
+        for i in range(int(n_children)):
+            g = FakeGenerator(self.ch, self.np, self.menus, tag="%s.spawn%d" % (self.tag, i), seed=self.seed, registry=self.registry)
+            if self.registry is not None:
+                self.registry.append(g)
+            kids.append(g)
+        return kids
 
     def _menu(self, name, *args):
         m = self.menus.get(name)
@@ -401,6 +449,23 @@ class FakeGenerator(Fake):
         sel = combos[self.ch.choose(len(combos), self.tag + ".choice-noreplace")]
         return self.np.array([pop[idx[i]] for i in sel])
 
+    def uniform(self, low=0.0, high=1.0, size=None):
+        if size is None and (low, high) == (0.0, 1.0):
+            self.draws += 1
+            return CoinFloat(self.ch, self.tag + ".uniform")
+        if (low, high) == (0.0, 1.0):
+            return self._menu("random", size if isinstance(size, tuple) else (size,))
+        raise UnownedRandomness("%s.uniform(%r, %r) is not modelled" % (self.tag, low, high))
+
+    def shuffle(self, x):
+        n = len(x)
+        perms = list(itertools.permutations(range(n)))
+        self.draws += 1
+        p = perms[self.ch.choose(len(perms), self.tag + ".shuffle")]
+        vals = [x[i] for i in p]
+        for i, v in enumerate(vals):
+            x[i] = v
+
     def permutation(self, x):
         n = int(x) if isinstance(x, (int, self.np.integer)) else len(x)
         base = list(range(n)) if isinstance(x, (int, self.np.integer)) else list(x)
@@ -421,7 +486,7 @@ class GeneratorFactory(Fake):
         self.Generator = real_np.random.Generator
 
     def default_rng(self, seed=None):
-        g = FakeGenerator(self.ch, self.np, self.menus, tag="%s%d" % (self.prefix, len(self.made)), seed=seed)
+        g = FakeGenerator(self.ch, self.np, self.menus, tag="%s%d" % (self.prefix, len(self.made)), seed=seed, registry=self.made)
         self.made.append(g)
         return g
 
